@@ -277,6 +277,14 @@ func (s *Store) FlushRevert() error {
 			cold.closeCollection()
 		}
 	}
+	// Items and nodes may follow the most recent root record (a Flush that
+	// failed before writing its roots, or Collection.Write): find that record
+	// first, so that it is the one being reverted.
+	if err := s.readRootsScan(true); err != nil {
+		return err
+	}
+	reverted := make(map[string]*Collection)
+	s.setColl(&reverted) // Forget the collections of the record being reverted.
 	if atomic.LoadInt64(&s.size) > rootsLen {
 		atomic.AddInt64(&s.size, -1)
 	}
